@@ -121,6 +121,14 @@ class C29(core.Check):
                 cs.append((nm, bs, temp, False, filed, False, "text", [], C))
             for fx in ("", "a/b", "/../../../x", "..", ".", "t.x", "é"):
                 cs.append(("main", "b", temp, False, filed, not filed, fx, [], [("reopen", False, False, False, None, "db"), ("exists",), ("close", True)]))
+        for temp in (True, False):
+            for filed in (False, True):
+                for route in ("do", "doist", "doer"):
+                    # a FilerDoer with temp injected at enter, on a filer that is open already / closed before
+                    cs.append(("test", "", temp, False, filed, False, "text", [], [("doer", route, True), ("close", True)]))
+                    cs.append(("test", "", temp, False, filed, False, "text", [], [("close", False), ("doer", route, True), ("doer", route, True)]))
+                    cs.append(("test", "", temp, False, filed, False, "text", [], [("doer", route, True)], ("ctx", False)))
+                cs.append(("test", "", temp, False, filed, False, "text", [], [("close", False), ("doer", "do", False), ("close", True)]))
         near = [("hio", "d"), ("hio/b", "d"), ("hio/b/main.textx", "f"), ("hio/b/main.text.bak", "f"), ("hio/b/mainx", "d"), ("hio/b/mainx/data", "f"), ("hio/b/main0", "d"), ("hio/b/mai", "f")]
         for filed, ext in ((False, False), (True, False), (False, True)):
             # neighbours whose names are in prefix relation with the path: none of them is the Filer's
@@ -192,7 +200,11 @@ class C29(core.Check):
         st = cls._norm(step)
         if st[0] == "reopen":
             return ("reopen", bool(st[1]), bool(st[2]), bool(st[3]), None if st[4] is None else bool(st[4]), None if st[5] is None else _b(st[5]))
-        if st[0] in ("doer", "exists"):
+        if st[0] == "doer":
+            # ("doer"[, route, temp]): route do | doist | doer says where the temp value is injected
+            # (only a TRUE temp is ever injected: Doist.do / Doer.do turn a false one into None before enter)
+            return ("doer",) if len(st) < 3 or not st[2] else ("doer", True)
+        if st[0] == "exists":
             return (st[0],)
         return ("close", bool(st[1]))
 
@@ -239,8 +251,10 @@ class C29(core.Check):
                                                         extensioned=filer.extensioned, fext=filer.fext))
                     elif s[0] == "doer":
                         def run_doer():
-                            doist = doing.Doist(limit=0.0625, tock=0.03125, real=False)
-                            doist.do(doers=[filing.FilerDoer(filer=filer)])
+                            route, val = (s[1], s[2]) if len(s) >= 3 and s[2] is not None else (None, None)
+                            doist = doing.Doist(limit=0.0625, tock=0.03125, real=False, **(dict(temp=val) if route == "doist" else {}))
+                            doer = filing.FilerDoer(filer=filer, **(dict(temp=val) if route == "doer" else {}))
+                            doist.do(doers=[doer], **(dict(temp=val) if route == "do" else {}))
                         ok = stage(run_doer)
                     else:
                         ok = stage(lambda: filer.close(clear=s[1]))
@@ -292,6 +306,7 @@ class C29(core.Check):
         tmph = P.TEMPSEGS
         path = None
         cur_temp = bool(temp)
+        is_open = False          # as the caller sees it: open after a successful constructor / reopen, closed after close / doer / exit
 
         def in_temp(p):
             return len(p) > len(tmph) and p[:len(tmph)] == tmph and p[len(tmph)].startswith(b"TMP")
@@ -320,6 +335,8 @@ class C29(core.Check):
                 new_temp = bool(step[4])
             elif step is not None and step[0] == "reopen" and step[4] is not None:
                 new_temp = None     # the call raised: either setting may have been in force
+            elif step is not None and step[0] == "doer" and len(step) >= 3 and step[2]:
+                new_temp = None     # an injected temp is taken over only when the doer had to open the filer
             ok_new = (lambda p: in_temp(p) or in_head(p)) if new_temp is None else (lambda p: inside(p, new_temp))
             if any(not ok_new(p) for p, _ in created):
                 out.append((i, "created-outside-head", old_temp, path))
@@ -330,6 +347,11 @@ class C29(core.Check):
             if any(e in init for e in deleted if not any(e[0][:len(q)] == q for q in own)):
                 # something that was there before the Filer existed, and is not below its own (old or new) path, is gone
                 out.append((i, "removed-foreign-entry", old_temp, path))
+            if step is not None and step[0] == "doer" and is_open and path is not None and in_temp(path) and any(p == path for p, _ in cur) \
+                    and res[0] == "ok" and res[1] is not None and res[1] != path:
+                # a doer run on an OPEN filer moved it to another place and left the temporary path it had before behind:
+                # nothing will ever remove it ("temp resources are removed" holds for EVERY temp path the filer made)
+                out.append((i, "doer-abandoned-temp-path", old_temp, path))
             if step is not None and step[0] == "exists" and (created or deleted):
                 out.append((i, "query-changed-filesystem", old_temp, path))
             if res[0] == "raise" and res[1] not in ("FilerError", "OSError", "TypeError"):
@@ -349,8 +371,14 @@ class C29(core.Check):
                     out.append((i, "close-without-clear-deleted", old_temp, path))
             if res[0] == "ok" and res[1] is not None:
                 path = res[1]
+            if res[0] == "ok":
+                is_open = step is None or step[0] == "reopen" or (step[0] == "exists" and is_open)
+            else:
+                is_open = False
             if new_temp is not None:
                 cur_temp = new_temp
+            elif step is not None and step[0] == "doer" and res[0] == "ok" and res[1] is not None:
+                cur_temp = in_temp(res[1]) if res[1] != path else cur_temp
             prev = cur
         return out
 
@@ -423,7 +451,7 @@ class C29(core.Check):
         f.append(f"steps:{len(steps)}")
         for s in steps:
             s = self._norm(s)
-            f.append("step:" + s[0] + ("+clear" if len(s) > 1 and s[1] else "") + ("+temp=" + str(s[4]) if s[0] == "reopen" and s[4] is not None else "")
+            f.append("step:" + s[0] + ("+clear" if len(s) > 1 and s[1] else "") + ("+temp=" + str(s[4]) if s[0] == "reopen" and s[4] is not None else "") + (f"+{s[1]}-temp={s[2]}" if s[0] == "doer" and len(s) >= 3 and s[2] is not None else "")
                      + ("+fext" if s[0] == "reopen" and s[5] is not None else ""))
         return f
 
